@@ -43,8 +43,8 @@ func pieces(c *hc.Ctx) {
 			pad := []string{"", " "}[c.Intn(2)]
 			text.WriteString(between + pad + name + pad + "(" + nums(args, sep) + ")")
 			// the function name as parseTransform lexes it: the text between ')' and '(' trimmed and lower-cased
-			// (a comma between two functions stays in the name: known finding C19-transform-comma)
-			lname := strings.ToLower(strings.TrimSpace(between + pad + name + pad))
+			// (and of commas, which separate transforms: 889f8da)
+			lname := strings.ToLower(strings.Trim(between+pad+name+pad, " \t\n\r,"))
 			if strings.ContainsAny(lname, " \t") {
 				lname = strings.ReplaceAll(lname, " ", "?")
 			}
